@@ -21,6 +21,13 @@ def resolveIn (tree : List Snap) (p : Path) (followFinal : Bool) : Option Path :
       | some d => some (if d = [] then last else d ++ [47] ++ last)
       | none => none
 
+/-- include patterns as `copy.go` / `filter.go` compile them: a NON-EMPTY list whose entries are all blank compiles to a matcher
+without patterns, which matches nothing (an absent or empty list means "no include filter"). The pattern lists of the model
+cannot tell the two apart, so the blank-only list is represented by one pattern that no path can match (a NUL byte). -/
+def incOf (raw : List (List Nat)) : List P.Pat :=
+  let ps := P.parsePatterns raw
+  if !raw.isEmpty && ps.isEmpty then P.parsePatterns [[0]] else ps
+
 def parseArgs (j : Json) : Except String Args := do
   let a ← j.getObjVal? "args"
   let inc := (getHexArr a "include").toOption.getD []
@@ -29,7 +36,7 @@ def parseArgs (j : Json) : Except String Args := do
     | .ok (.arr #[u, g]) => some ((fromJson? u : Except String Nat).toOption.getD 0, (fromJson? g : Except String Nat).toOption.getD 0)
     | _ => none
   return { src := getHexD a "src", dst := getHexD a "dst", cdc := getBoolD a "cdc" false, follow := getBoolD a "follow" false,
-           replace := getBoolD a "replace" false, inc := P.parsePatterns inc, exc := P.parsePatterns exc, chown := chown,
+           replace := getBoolD a "replace" false, inc := incOf inc, exc := P.parsePatterns exc, chown := chown,
            mode := (a.getObjValAs? Nat "mode").toOption, utime := (getInt a "utime").toOption,
            modeStr := match a.getObjValAs? String "modestr" with | .ok m => some (m.toUTF8.toList.map (·.toNat)) | .error _ => none }
 
